@@ -348,6 +348,9 @@ def c14_cases(draw, max_nodes=14):
     if draw(st.integers(0, 3)) == 0:
         # demands that are not whole numbers (JSON numbers; the repository's files write 7.14e4)
         wf = {'nodes': [dict(n, comp=n['comp'] + draw(st.sampled_from([0, 0.5, 0.75, 0.25]))) for n in wf['nodes']], 'edges': wf['edges']}
+    if draw(st.booleans()):
+        # the order in which the file lists its nodes (and its edges) carries no meaning
+        wf = {'nodes': list(draw(st.permutations(wf['nodes']))), 'edges': list(draw(st.permutations(wf['edges'])))}
     name = draw(st.text(C14_NAME_ALPHABET, min_size=1, max_size=6))
     clock = draw(st.sampled_from([0, 1, 7, 10, 123]))
     return {'wf': wf, 'name': name, 'clock': clock, 'duration': draw(st.integers(1, 9)),
@@ -676,7 +679,21 @@ class C15(SimSpec):
         # that a later workflow begins on time after an earlier workflow's delayed task has completed
         ontime = dict(kw, delays=True, abs_est=True, algs=('dynamic', 'greedy'), min_obs=2, start_gaps=(2, 5, 10, 10),
                       modes=('roomy',))
-        return mix((2, scenarios(delays=True, **kw)), (1, scenarios(**ontime)), (1, swarm(kw, delays=True))).map(force)
+
+        def together(t):
+            # two parallel root tasks on different machines that finish in the SAME step because the first-listed one is
+            # delayed by exactly the difference of their runtimes; generous slack, so nothing else is late
+            r, d, tail, speed, alg, slack = t
+            wf = {'nodes': [{'id': 0, 'comp': r * speed}, {'id': 1, 'comp': (r + d) * speed}, {'id': 2, 'comp': tail * speed}],
+                  'edges': [[0, 2, 0], [1, 2, 0]]}
+            return {'machines': [{'flops': speed, 'bw': 5}] * 3, 'arrays': 8, 'max_ingest': 1,
+                    'obs': [{'name': 'p', 'start': 0, 'duration': 2, 'demand': 4, 'rate': 1, 'ingest': 1, 'wf': wf,
+                             'plan': {'0': 0, '1': 1, '2': 2}}],
+                    'hot': {'capacity': 100, 'rate': 5}, 'cold': {'capacity': 100, 'rate': 5}, 'unit': 'seconds',
+                    'alg': {'kind': alg}, 'mode': 'roomy', 'delays': {'p:0': d}, 'delay_model': None, 'abs_est': slack}
+        simultaneous = st.tuples(st.integers(1, 6), st.integers(1, 4), st.integers(1, 5), st.sampled_from([1, 5, 10]),
+                                 st.sampled_from(['dynamic', 'greedy']), st.sampled_from([20, 50])).map(together)
+        return mix((4, scenarios(delays=True, **kw)), (2, scenarios(**ontime)), (2, swarm(kw, delays=True)), (1, simultaneous)).map(force)
 
     def violations(self, tr):
         return O.C15_sim(tr)
@@ -832,7 +849,10 @@ def parse_all(unit, inst, cluster, buffer, twice=False):
 
 def c16_violations(unit, vals):
     from .scenario import unit_factor
-    f = unit_factor(unit)
+    canonical = isinstance(unit, int) or unit in ('seconds', 'minutes', 'hours')
+    # other spellings ('Minutes', ' hours', 'days', ...): whatever factor the simulator gives them, it must be the same in all
+    # three sections - the factor is read off the instrument section and the other two are held to it
+    f = unit_factor(unit) if canonical else 3600
     inst, cluster, buffer = physical_config(f, vals)
     out = []
     try:
@@ -844,6 +864,9 @@ def c16_violations(unit, vals):
         if harness_frame_innermost(e):
             raise
         return [O.V('C16', 'parse_raised', f"unit {unit!r}: {type(e).__name__}@{repo_frame(e)}: {e}")]
+    if not canonical:
+        f = U['obs'][0][4] / S['obs'][0][4]
+        f = int(f) if f == int(f) else f
 
     def bad(part, msg):
         out.append(O.V('C16', part, f"unit {unit!r} (factor {f}): {msg}"))
@@ -937,7 +960,11 @@ class C16:
         from .scenario import unit_factor
         state.evaluations += 1
         out = c16_violations(unit, vals)
-        f = unit_factor(unit)
+        if isinstance(unit, str) and unit not in ('seconds', 'minutes', 'hours'):
+            f = 2
+            state.count('unit_other_spelling')
+        else:
+            f = unit_factor(unit)
         state.count('unit_string' if isinstance(unit, str) else 'unit_int')
         if f > 1:
             state.nontrivial.add(case_hash([str(unit), vals]))
@@ -1043,7 +1070,8 @@ class C16:
         if state.failures:
             return
         units = st.one_of(st.sampled_from(['seconds', 'minutes', 'hours']), st.integers(1, 7200),
-                          st.sampled_from([1, 2, 59, 60, 61, 3599, 3600, 3601]))
+                          st.sampled_from([1, 2, 59, 60, 61, 3599, 3600, 3601]),
+                          st.sampled_from(['Minutes', 'HOURS', ' minutes', 'hours ', 'Seconds', 'days', 'min', 'hour']))
         run_given(state, st.tuples(units, c16_vals()).map(list), self.body,
                   max(1, (cases or self.cases[tier]) // nshards), shard_seed(seed, self.prop, shard))
         if state.failures or tier != 'thorough':
